@@ -255,6 +255,11 @@ fn window_cases(p: &ProgSpec, ch: &mut Choices, k: usize) -> Vec<Case> {
             schedules.push(w);
             notes.push(format!("window:{t}:{idx}"));
         }
+        if p.outputs.iter().any(|o| o.concat) {
+            let flat: Vec<Vec<serde_json::Value>> = (0..s.inputs.len()).map(|i| s.flat(i)).collect();
+            schedules.push(sched::single_tick(&flat, &s.sing));
+            notes.push("single-batch".into());
+        }
         out.push(Case { prog: p.clone(), schedules, notes });
     }
     out
